@@ -77,6 +77,23 @@ def gen_counts(rng):
             "layout": "contig,contig,contig"}
 
 
+def gen_intstamps(rng):
+    """integer time stamps stored in an integer dtype (unsigned micro-second counters), the new grid in the same dtype,
+    with points before the first and after the last sample"""
+    n = rng.randint(5, 14)
+    x0 = rng.randint(5, 40)
+    x = [Fraction(x0)]
+    for _ in range(n - 1):
+        x.append(x[-1] + rng.randint(1, 6))
+    affine = rng.random() < 0.5
+    a, b0 = rng.dyadic(-8, 8, 2), rng.dyadic(-8, 8, 2)
+    y = [a * v + b0 for v in x] if affine else rng.values(n)
+    pts = {x[0] - rng.randint(1, 4), x[-1] + rng.randint(1, 4)} | {rng.choice(x) for _ in range(3)} \
+        | {Fraction(rng.randint(int(x[0]), int(x[-1]))) for _ in range(4)}
+    return {"kind": "direct", "x": [str(v) for v in x], "y": [str(v) for v in y], "new": [str(v) for v in sorted(pts)],
+            "method": rng.choice(METHODS), "affine": affine, "xdtype": rng.choice(["uint64", "uint64", "int64", "uint32", "uint16"])}
+
+
 def gen_weaver(rng):
     c = W.gen_init(rng, 5, 12)
     c["kind"] = "weaver"
@@ -107,6 +124,8 @@ def cases(rng, tier):
     na, nb = {"quick": (300, 120), "thorough": (4000, 1200)}.get(tier, (200, 80))
     for _ in range(max(6, na // 25)):
         yield gen_counts(rng)
+    for _ in range(max(20, na // 10)):
+        yield gen_intstamps(rng)
     for _ in range(na):
         yield gen_direct(rng)
     for _ in range(nb):
@@ -139,6 +158,9 @@ def run_impl(c):
             if all(v.denominator == 1 for v in new):
                 na = S.arr([int(v) for v in new])        # an integer-dtype grid (np.arange, a list of ints)
             xa, ya = S.arr(floats(x)), S.arr(floats(y))
+            if c.get("xdtype"):
+                xa = S.arr([int(v) for v in x], dtype=c["xdtype"])
+                na = S.arr([int(v) for v in new], dtype=c["xdtype"])
             r = interpolate(xa, ya, na, method=c["method"])
             if r is None:
                 return {"none": True}
